@@ -622,6 +622,122 @@ fn in_check_net(t: &mut Tape) -> Pos1 {
     p
 }
 
+/// a battery aimed at the enemy king: a slider behind one of our own pieces on a line to the
+/// king, so that the front piece, moving off the line, uncovers a check - and gives a second
+/// one itself if it lands right (double checks, by two sliders among others)
+fn battery_net(t: &mut Tape) -> Pos1 {
+    let mut p = Pos1::empty();
+    p.stm = WHITE;
+    // the enemy king, preferably on the rim
+    let bk = if t.choose(3) != 0 { sq(t.choose(8) as u8, *t.pick(&[0u8, 7, 7])) } else { t.choose(64) as u8 };
+    p.sq[bk as usize] = pc(BLACK, K);
+    let dirs: [(i8, i8); 8] = [(1, 0), (-1, 0), (0, 1), (0, -1), (1, 1), (1, -1), (-1, 1), (-1, -1)];
+    for _ in 0..8 {
+        let (dx, dy) = *t.pick(&dirs);
+        let a = t.range(1, 4) as i8;
+        let b = a + t.range(1, 4) as i8;
+        let at = |d: i8| -> Option<u8> {
+            let f = file_of(bk) as i8 + dx * d;
+            let r = rank_of(bk) as i8 + dy * d;
+            if (0..8).contains(&f) && (0..8).contains(&r) {
+                Some(sq(f as u8, r as u8))
+            } else {
+                None
+            }
+        };
+        let (Some(front), Some(back)) = (at(a), at(b)) else { continue };
+        let slider = if dx == 0 || dy == 0 { *t.pick(&[R, Q, R]) } else { *t.pick(&[B, Q, B]) };
+        let front_kind = if dx == 0 || dy == 0 { *t.pick(&[B, N, B, P]) } else { *t.pick(&[R, N, R, P]) };
+        if front_kind == P && (rank_of(front) == 0 || rank_of(front) == 7) {
+            continue;
+        }
+        p.sq[back as usize] = pc(WHITE, slider);
+        p.sq[front as usize] = pc(WHITE, front_kind);
+        break;
+    }
+    if let Some(s) = rand_empty(t, &p, 0, 7) {
+        p.sq[s as usize] = pc(WHITE, K);
+    }
+    let n = t.range(0, 4);
+    for _ in 0..n {
+        let k = *t.pick(&[Q, R, B, N, P, R]);
+        if let Some(s) = rand_empty(t, &p, 0, 7) {
+            place(&mut p, s, WHITE, k);
+        }
+    }
+    // own pieces of the enemy king next to it (they take flight squares away)
+    let n = t.range(0, 4);
+    for _ in 0..n {
+        let k = *t.pick(&[P, P, N, B, R]);
+        let f = (file_of(bk) as i8 + t.range(0, 2) as i8 - 1).clamp(0, 7) as u8;
+        let r = (rank_of(bk) as i8 + t.range(0, 2) as i8 - 1).clamp(0, 7) as u8;
+        let s = sq(f, r);
+        if p.sq[s as usize] == EMPTY && !(k == P && (r == 0 || r == 7)) {
+            place(&mut p, s, BLACK, k);
+        }
+    }
+    p
+}
+
+/// a pawn about to promote a knight's move away from the enemy king, which is hemmed in by
+/// its own pieces (mates that only the knight promotion - by push or by capture - delivers)
+fn knight_promotion_net(t: &mut Tape) -> Pos1 {
+    let mut p = Pos1::empty();
+    p.stm = WHITE;
+    let f = t.choose(8) as i8;
+    let target = sq(f as u8, 7);
+    let mut ks: Vec<u8> = Vec::new();
+    for (dx, r) in [(-1i8, 5u8), (1, 5), (-2, 6), (2, 6)] {
+        let kf = f + dx;
+        if (0..8).contains(&kf) {
+            ks.push(sq(kf as u8, r));
+        }
+    }
+    let bk = *t.pick(&ks);
+    p.sq[bk as usize] = pc(BLACK, K);
+    // the pawn: straight below the promotion square, or diagonally below it with something to capture
+    let capture = t.choose(3) != 0;
+    let pf = if capture { if f == 0 { 1 } else if f == 7 { 6 } else if t.choose(2) == 0 { f - 1 } else { f + 1 } } else { f };
+    let from = sq(pf as u8, 6);
+    if from == bk {
+        return p;
+    }
+    p.sq[from as usize] = pc(WHITE, P);
+    if capture {
+        p.sq[target as usize] = pc(BLACK, *t.pick(&[R, B, N, Q, R]));
+    }
+    // the king's neighbourhood, mostly filled with its own pieces
+    for dx in -1i8..=1 {
+        for dy in -1i8..=1 {
+            let nf = file_of(bk) as i8 + dx;
+            let nr = rank_of(bk) as i8 + dy;
+            if (dx, dy) == (0, 0) || !(0..8).contains(&nf) || !(0..8).contains(&nr) {
+                continue;
+            }
+            let s = sq(nf as u8, nr as u8);
+            if p.sq[s as usize] != EMPTY || t.choose(4) == 0 {
+                continue;
+            }
+            let k = *t.pick(&[P, P, N, B, R, P]);
+            if k == P && (nr == 0 || nr == 7) {
+                continue;
+            }
+            p.sq[s as usize] = pc(BLACK, k);
+        }
+    }
+    if let Some(s) = rand_empty(t, &p, 0, 4) {
+        p.sq[s as usize] = pc(WHITE, K);
+    }
+    let n = t.range(0, 3);
+    for _ in 0..n {
+        let k = *t.pick(&[B, N, R, Q, P]);
+        if let Some(s) = rand_empty(t, &p, 0, 7) {
+            place(&mut p, s, WHITE, k);
+        }
+    }
+    p
+}
+
 /// the enemy pawn has just double-stepped next to one of our pawns, with the enemy king and
 /// a few of our pieces close by (mates by an en-passant capture, among others)
 fn ep_net(t: &mut Tape) -> Pos1 {
@@ -741,17 +857,19 @@ fn bare_capture_mate(t: &mut Tape) -> Option<Pos1> {
 
 /// G10: search a mixture of generators for a position with a mate in one of a drawn kind
 fn mate_hunt(t: &mut Tape) -> Pos1 {
-    let want = t.choose(10);
+    let want = t.choose(13);
     let mut fallback: Option<Pos1> = None;
     if want == 9 {
         if let Some(p) = bare_capture_mate(t) {
             return p;
         }
     }
-    let tries = if want == 5 || want == 8 || want == 2 { 1500 } else { 250 };
+    let tries = if want == 5 || want == 8 || want == 2 || want >= 10 { 1500 } else { 250 };
     for _ in 0..tries {
-        let which = if want == 5 || want == 8 { 6 } else if want == 2 { 7 } else { t.choose(6) };
+        let which = if want == 5 || want == 8 { 6 } else if want == 2 { 7 } else if want == 12 { 9 } else if want >= 10 { 8 } else { t.choose(6) };
         let mut p = match which {
+            8 => battery_net(t),
+            9 => knight_promotion_net(t),
             6 => in_check_net(t),
             7 => ep_net(t),
             0 | 1 => pawn_storm(t),
@@ -792,6 +910,19 @@ fn mate_hunt(t: &mut Tape) -> Pos1 {
             6 => mates.len() >= 3,
             7 => p.hmc == 99 && mates.iter().any(|&m| p.kind(m) == MoveKind::Quiet && kind_of(p.sq[m.from as usize]) != P),
             8 => p.in_check(),
+            // a mate by double check; (11) with both checks given by sliders
+            10 | 11 => mates.iter().any(|&m| {
+                let q = p.make(m);
+                match q.king_sq(q.stm) {
+                    Some(k) => {
+                        let att = q.attackers(k, q.stm ^ 1);
+                        att.len() >= 2 && (want == 10 || att.iter().all(|&a| matches!(kind_of(q.sq[a as usize]), B | R | Q)))
+                    }
+                    None => false,
+                }
+            }),
+            // the knight promotion is the only way to mate
+            12 => mates.iter().all(|&m| p.kind(m) == MoveKind::PromoN),
             _ => true,
         };
         if ok {
